@@ -277,7 +277,20 @@ func runFraming(r *core.Run) {
 			maxLen = 65536
 		}
 		plan.frames = genFrames(c, maxFrames, maxLen, false)
-		if c.Prob(1, 6) {
+		bigBacklog := c.Prob(1, 150)
+		if bigBacklog {
+			// a consumer that was away for a while finds megabytes buffered: 17..40 maximal frames in one piece
+			// (backlogs around 1 MiB and 2 MiB, where a 20- or 21-bit size computation changes)
+			plan.frames = nil
+			for i, n := 0, 17+c.Intn(24); i < n; i++ {
+				l := 60000 + c.Intn(5536)
+				f := c.Blob(l, "any")
+				f[0], f[1], f[2], f[3] = byte(l>>24), byte(l>>16), byte(l>>8), byte(l)
+				plan.frames = append(plan.frames, f)
+			}
+			r.Probe("megabyte_backlog")
+		}
+		if !bigBacklog && c.Prob(1, 6) {
 			plan.badAt = c.Intn(len(plan.frames) + 1)
 			plan.badPrefix = uint32(c.Intn(4))
 			if plan.badAt > len(plan.frames)-1 {
@@ -354,6 +367,9 @@ func runFraming(r *core.Run) {
 	cutMode := 0
 	if !exhaustive {
 		cutMode = c.Pick(2, 3, 3, 2, 2) // 0 whole, 1 random cuts, 2 tiny chunks, 3 frame-aligned, 4 coalesce-all-then-one
+		if total > 1<<20 {
+			cutMode = []int{0, 4, 1}[c.Intn(3)] // never octet by octet through a megabyte
+		}
 	}
 	delivered := 0
 	cutter := func(remaining int) int {
